@@ -922,6 +922,18 @@ macro_rules! edge_loop_impl {
                 1 => {
                     edge_loop_impl!(@in $in_, n, steps, budget, body);
                 }
+                // internal iteration: the adaptor methods an iterator may override
+                // (fold / try_fold / count / last / nth / collect); the body bounds
+                // the number of calls itself
+                10..=19 => {
+                    edge_loop_impl!(@adapt n.$out(), which - 10, body);
+                }
+                20..=29 => {
+                    edge_loop_impl!(@adapt_in $in_, n, which - 20, body);
+                }
+                30..=39 => {
+                    edge_loop_impl!(@adapt n.into_iter(), which - 30, body);
+                }
                 _ => {
                     for e in n {
                         if steps >= budget {
@@ -933,6 +945,54 @@ macro_rules! edge_loop_impl {
                 }
             }
             true
+        }
+    };
+    (@adapt_in none, $n:ident, $w:expr, $body:ident) => {
+        let _ = (&$n, $w);
+    };
+    (@adapt_in $it:ident, $n:ident, $w:expr, $body:ident) => {
+        edge_loop_impl!(@adapt $n.$it(), $w, $body);
+    };
+    (@adapt $iter:expr, $w:expr, $body:ident) => {
+        match $w {
+            0 => $iter.for_each(|e| $body(&e)),
+            1 => $iter.fold((), |_, e| $body(&e)),
+            2 => {
+                let _ = $iter.map(|e| {
+                    $body(&e);
+                    1usize
+                })
+                .sum::<usize>();
+            }
+            3 => {
+                let _ = $iter.inspect(|e| $body(e)).count();
+            }
+            4 => {
+                let _ = $iter.inspect(|e| $body(e)).last();
+            }
+            5 => {
+                let _ = $iter.all(|e| {
+                    $body(&e);
+                    true
+                });
+            }
+            6 => {
+                let _ = $iter.inspect(|e| $body(e)).collect::<Vec<_>>();
+            }
+            7 => {
+                let mut it = $iter;
+                while let Some(e) = it.nth(0) {
+                    $body(&e);
+                }
+            }
+            8 => {
+                for (e, _) in $iter.zip(0u32..) {
+                    $body(&e);
+                }
+            }
+            _ => {
+                let _ = $iter.inspect(|e| $body(e)).max_by_key(|_| 0u8);
+            }
         }
     };
     (@manual_in none, $n:ident, $steps:ident, $budget:ident, $body:ident) => {
